@@ -432,7 +432,7 @@ def r_find(repo, rep):
           verdict = _regex_parse(f, rd, at, args, (param, entry))
           if verdict is not None and verdict[0] is False:
             rep.violation('R4/parse', f.qualname, verdict[1][:100],
-                          'the entry is parsed with `%s`, whose pattern %r is not anchored at the end: any text after a well-formed prefix is ignored, so a malformed entry (a third part, trailing characters) is accepted instead of raising ValueError'
+                          'the entry is parsed with `%s`, whose pattern %r does not have to consume the whole entry: text outside the matched part(s) is ignored, so a malformed entry (a third part, stray characters, a wrong separator) is accepted instead of raising ValueError'
                           % (verdict[1][:60], verdict[2][:80]), f.loc(tw))
           else:
             rep.undecided('R4/parse', 'TimeWindow(%s, %s)' % tuple(exp), 'arguments are not parts of entry.split("-")' +
@@ -549,18 +549,25 @@ def _regex_parse(f, rd, at, args, keep):
         if d_.value is not None and id(d_) not in seen:
           seen.add(id(d_))
           work.append((d_.node, d_.value))
+  found = []
   for t in trees:
     for c in ast.walk(t):
-      if not (isinstance(c, ast.Call) and isinstance(c.func, ast.Attribute) and c.func.attr in ('match', 'search', 'fullmatch')):
+      if not (isinstance(c, ast.Call) and isinstance(c.func, ast.Attribute) and c.func.attr in ('match', 'search', 'fullmatch', 'findall', 'finditer')):
         continue
-      if au.lib_name(f.module, c.func) in ('re.match', 're.search', 're.fullmatch') and c.args:
+      if au.lib_name(f.module, c.func) in ('re.match', 're.search', 're.fullmatch', 're.findall', 're.finditer') and c.args:
         pat = regexes.fold_string(c.args[0], assigns)
       else:
         pat = regexes.compiled_pattern(c.func.value, assigns)
       if pat is None:
         continue
-      return regexes.whole_string(c.func.attr, pat), norm(c), pat
-  return None
+      # findall / finditer pick the matching tokens out of the text: whatever stands between or around them is ignored
+      whole = False if c.func.attr in ('findall', 'finditer') else regexes.whole_string(c.func.attr, pat)
+      found.append((whole, norm(c), pat))
+  # a whole-string match anywhere in the derivation validates the entry; otherwise the first partial extraction decides
+  for v in found:
+    if v[0]:
+      return v
+  return found[0] if found else None
 
 
 def run(repo, rep, tier):
